@@ -114,6 +114,29 @@ def level(k):
 
 rec(1, level(2))
 
+# the program's OWN functools.singledispatch functions on the calling stack: their wrapper frames are the user's frames (only the
+# wrapper frames of stackscope's own hook dispatchers are internal), on the main greenlet and inside a child greenlet
+import functools
+
+
+@functools.singledispatch
+def via_dispatch(x, then):
+    return then()
+
+
+@via_dispatch.register(int)
+def _via_int(x, then):
+    return via_dispatch("s", then)
+
+
+def sd_chain(then):
+    return via_dispatch(1, then)
+
+
+sd_chain(lambda: check("user-singledispatch", lambda N: [None, 1, 2, N]))
+gsd = greenlet.greenlet(lambda: rec(1, lambda: sd_chain(lambda: check("user-singledispatch-in-greenlet", lambda N: [None, 1, 2, N]))))
+gsd.switch()
+
 
 # parent chains with an ancestor that has no frame: dead (finished) or never started.  An exception raised in the innermost
 # greenlet propagates past such an ancestor to ITS parent, so the ancestor contributes nothing and the walk goes on.
